@@ -47,6 +47,7 @@ func hdrObs(h meta.ExifHeader, err error) string {
 // readSome consumes a callback reader the way a consumer legitimately may.
 func drain(r io.Reader, limit int) (n int, sum uint64, err error) {
 	buf := make([]byte, 777)
+	zeros := 0
 	for n < limit {
 		k, e := r.Read(buf)
 		for _, c := range buf[:k] {
@@ -60,8 +61,13 @@ func drain(r io.Reader, limit int) (n int, sum uint64, err error) {
 			return
 		}
 		if k == 0 {
-			return
+			// (0, nil) is legal; like bufio, give up only after many in a row
+			if zeros++; zeros > 100 {
+				return
+			}
+			continue
 		}
+		zeros = 0
 	}
 	return
 }
